@@ -4,7 +4,7 @@ Monitor: wrapper on InstructionMemorySystem.read_instruction (instance level) lo
 (address, returned object); the returned object must be the instruction installed at that address;
 the reference cache R4 replays the logged fetch addresses for the expected hit count; counters and
 per-step penalty conservation are read from the public stats."""
-from ..common import rng_for, h64, make_riscv, install_program, build_instr, set_regs, preload_mem, real_regs, instr_text, M32
+from ..common import guarded, rng_for, h64, make_riscv, install_program, build_instr, set_regs, preload_mem, real_regs, instr_text, M32
 from ..refmodels.refcache import RefCache
 from ..refmodels.rv32 import SeqRef
 from ..refmodels.timed5 import TimedRef
@@ -256,7 +256,7 @@ def run_shard(spec, res):
     rng = rng_for("C11", spec["tier"], spec["seed"], spec["kind"], spec["shard"])
     if spec["kind"] == "directed":
         for c in directed_cases():
-            run_case("C11", c, res)
+            guarded(run_case, "C11", c, res)
             res.evaluations += 1
         return
     for it in range(spec["n"]):
@@ -272,7 +272,7 @@ def run_shard(spec, res):
         else:
             n1, n2 = rng.randint(1, 30), rng.randint(1, 30)
             case = {"kind": "reload", "icache": rand_icfg(rng), "p1": simple_prog(rng, n1), "p2": simple_prog(rng, n2), "fetch1": [4 * rng.randrange(n1) for _ in range(rng.randint(0, 40))], "fetch2": [4 * rng.randrange(n2) for _ in range(rng.randint(1, 40))]}
-        run_case("C11", case, res)
+        guarded(run_case, "C11", case, res)
         res.evaluations += 1
         if it < 1:
             res.sample(case, 4)
